@@ -5,7 +5,7 @@ def wit(fid):
     r = json.load(open(f"{W}/witness_{fid}.json"))
     return {"profile": r["profile"], "scenario": r["scenario"], "signature": r["signature"]}
 known = [
- ("F4", ["C03", "C04"], "Projection.commute moves a projection upstream of a Deduplication when backtracking (sql_leaf.transferred_to(it).without_duplicates().with_only_columns({a}, preferred_engine=sql) returns [1,2] instead of [1,1,2]); tests/test_projection.py::test_backtracking_apply pins this move, so it cannot be repaired without editing the suite"),
+ ("F4", ["C03", "C04", "C06"], "Projection.commute moves a projection upstream of a Deduplication when backtracking (sql_leaf.transferred_to(it).without_duplicates().with_only_columns({a}, preferred_engine=sql) returns [1,2] instead of [1,1,2]); tests/test_projection.py::test_backtracking_apply pins this move, so it cannot be repaired without editing the suite"),
  ("F16", ["C08"], "a chain whose operand is itself a chain compiles to a parenthesised compound SELECT, which SQLite rejects (near \"(\": syntax error); the parenthesised strings are pinned by tests/test_sql_engine.py::test_chains"),
  ("F19", ["C08"], "it_leaf.join(it_leaf2) is accepted by the factory; iteration.Engine.execute() then raises EngineError('Joins are not supported by the iteration engine') - a documented limitation, but an unsupported-node error after acceptance"),
 ]
